@@ -13,5 +13,6 @@ for id in $ids; do
   if echo "$out" | grep -q "PATCH FAILED"; then r="PATCH-FAILED"
   elif echo "$out" | grep -q "CAUGHT BY: \['"; then r="CAUGHT"
   else r="MISSED"; fi
-  echo "$id $r"
+  nv=$(echo "$out" | grep -o "new_violations=[0-9]*" | head -1 | cut -d= -f2)
+  echo "$id $r ${nv:+cases=$nv}"
 done
